@@ -50,12 +50,18 @@ class Ring:
         self.identity_log = []
 
     def add_root(self, name, W):
-        """declare formal root s with s^2 = W (W: Res without roots / int term)."""
+        """declare a formal root s with s^2 = W.  W: integer term / Res whose denominator is 1; it may involve
+        roots declared EARLIER (tower of quadratic extensions)."""
         if isinstance(W, Res):
-            if set(W.comp) - {0} or not _is_one(W.den):
-                raise Unsupported("root radicand must be a plain polynomial")
-            W = W.comp.get(0, z3.IntVal(0))
-        self.roots.append((name, W))
+            if not _is_one(W.den):
+                raise Unsupported("root radicand must have denominator 1")
+            i = len(self.roots)
+            if any(m >> i for m in W.comp):
+                raise Unsupported("root radicand involves a later root")
+            Wr = W
+        else:
+            Wr = Res({0: W if z3.is_expr(W) else z3.IntVal(int(W))}, z3.IntVal(1), self)
+        self.roots.append((name, Wr))
         i = len(self.roots) - 1
         return Res({1 << i: z3.IntVal(1)}, z3.IntVal(1), self)
 
@@ -578,17 +584,30 @@ class Res:
             for m2, c2 in o.comp.items():
                 t = _mul(c1, c2)
                 common = m1 & m2
+                m = m1 ^ m2
+                if not common:
+                    out[m] = _add(out[m], t) if m in out else t
+                    continue
+                # s_i^2 = W_i, W_i an element of the tower below s_i
+                term = Res({m: t}, z3.IntVal(1), self.ring)
                 i = 0
                 while common:
                     if common & 1:
-                        t = _mul(t, roots[i][1])
+                        term = term * roots[i][1]
                     common >>= 1
                     i += 1
-                m = m1 ^ m2
-                out[m] = _add(out[m], t) if m in out else t
+                for mm, cc in term.comp.items():
+                    out[mm] = _add(out[mm], cc) if mm in out else cc
         return Res(out, _mul(self.den, o.den), self.ring)
 
     __rmul__ = __mul__
+
+    @property
+    def sgn0(self):
+        h = getattr(self.ring, "sgn0_hook", None)
+        if h is None:
+            raise Unsupported("sgn0 of an abstract field element")
+        return h(self)
 
     def conj(self, i):
         bit = 1 << i
